@@ -10,7 +10,8 @@ RULE = ("one-shot: full product key length {16,32} x key pattern x nonce x AAD l
         "decrypt_mut(l), fork; states merged on (phase, aad bytes, data bytes, observed tag-of-clone), run until the frontier is empty within the "
         "byte bounds, so every partition of AAD and data into alphabet pieces is covered; in every state the tag of a finalized clone must equal "
         "the model tag of the bytes so far; non-trivial = some non-empty AAD or data; distinct = program text"
-        " Also: every plaintext length 0..=200 and every AAD length 0..=80 one-shot; buffer placement (AAD and second data piece at every address offset mod 8, +8, 16, 33; lengths 1..=24, 30, 64, 65 after a first piece of every class mod 8); component shards: the Poly1305 limb-steering / corner-state / crafted inputs of C05 and the counter-bit and seek shards of C03 (the AEAD's MAC key and block counter cannot be steered through the AEAD itself); the corpus again on the checked-arithmetic and native builds.")
+        " Also: every plaintext length 0..=200 and every AAD length 0..=80 one-shot; buffer placement (AAD and second data piece at every address offset mod 8, +8, 16, 33; lengths 1..=24, 30, 64, 65 after a first piece of every class mod 8); component shards: the Poly1305 limb-steering / corner-state / crafted inputs of C05 and the counter-bit and seek shards of C03 (the AEAD's MAC key and block counter cannot be steered through the AEAD itself); the corpus again on the checked-arithmetic and native builds."
+        " Interference: an incremental encrypt / decrypt pair and the one-shot pair per round count with the programs of every other object type (25 bystander programs) woven between the steps, two ways.")
 ASSUMPTIONS = ["python RFC 8439 AEAD model (validated on 2.8.2) over the ChaCha model of C03", "128-bit keys use Bernstein's 16-byte constants, as the statement requires",
                "content of key/nonce/AAD/plaintext from the pattern alphabet"]
 
@@ -181,6 +182,7 @@ def _own_shards(tier):
     for r in (8, 12, 20):
         sh.append(("shard_fork", (r, 32)))
     sh.append(("shard_align", 20))
+    sh.append(("shard_interference", None))
     return sh
 
 
@@ -249,6 +251,27 @@ def shard_align(rounds, tier):
                                   ["-", "-", "%s.%s" % (obs_of(ct), obs_of(tag)), "T.%s" % obs_of(pt)], None))
     ck.run(cases, nontrivial=_nt)
     ck.stats.states = len(cases) + 1
+    return ck.stats
+
+
+def shard_interference(_, tier):
+    """an incremental encryption and the decryption of its result (and the one-shot pair) with the programs of every other object type
+    (props/common.py: bystanders) woven between the steps, two ways"""
+    from .common import interference_cases
+    ck = core.Checker(PROPERTY_ID)
+    own = []
+    for rounds in (8, 12, 20):
+        key, nonce, aad, pt = pat(6, 2, 32), pat(7, 5, 12), pat(2, 7, 13), pat(5, 1, 5) + pat(5, 40, 70)
+        ct, tag = poly.aead_encrypt(key, nonce, aad, pt, rounds)
+        new = "actx_new s0 %d %s %s" % (rounds, P(6, 2, 32), P(7, 5, 12))
+        own.append(([new, "actx_aad s0 %s" % P(2, 7, 13), "aclone s0 s1", "actx_toenc s0", "actx_todec s1", "aenc_mut s0 %s" % P(5, 1, 5), "aenc_mut s0 %s" % P(5, 40, 70),
+                     "aenc_fin s0", "adec s1 %s" % H(ct[:33]), "adec_mut s1 %s" % H(ct[33:]), "adec_fin s1 %s" % H(tag)],
+                    ["-"] * 5 + [obs_of(ct[:5]), obs_of(ct[5:]), obs_of(tag), obs_of(pt[:33]), obs_of(pt[33:]), "T"], None))
+        own.append((["aead_new s0 %d %s %s %s" % (rounds, P(6, 2, 32), P(7, 5, 12), P(2, 7, 13)), "aclone s0 s1", "aead_enc s0 %s" % H(pt), "aead_dec s1 %s %s" % (H(ct), H(tag))],
+                    ["-", "-", "%s.%s" % (obs_of(ct), obs_of(tag)), "T.%s" % obs_of(pt)], None))
+    cs = interference_cases(own)
+    ck.run(cs, nontrivial=_nt)
+    ck.stats.states = len(cs) + 1
     return ck.stats
 
 
